@@ -1500,7 +1500,19 @@ func (tr *FnTrans) atCall(simple string) {
 		at := tr.curBlock
 		heap := tr.cur
 		ec.lookup = func(name string) (Val, bool) { return tr.lookupLocal(name, at, heap) }
-		tr.vc.oblig(fmt.Sprintf("%s#assert:%s", tr.name, ai.Label), "assert", sImp(tr.curReach, ec.evalBool(ai.E)), fmt.Sprintf("assertion before call %d of %s: %s", ord, simple, ai.Text))
+		term, why := func() (t string, why string) {
+			defer func() {
+				if r := recover(); r != nil {
+					if ve, isVC := r.(vcError); isVC {
+						t, why = "false", " [cannot be evaluated here: "+ve.msg+"]"
+						return
+					}
+					panic(r)
+				}
+			}()
+			return sImp(tr.curReach, ec.evalBool(ai.E)), ""
+		}()
+		tr.vc.oblig(fmt.Sprintf("%s#assert:%s", tr.name, ai.Label), "assert", term, fmt.Sprintf("assertion before call %d of %s: %s%s", ord, simple, ai.Text, why))
 	}
 }
 
@@ -1520,6 +1532,14 @@ func (tr *FnTrans) exit() {
 						tr.binds[ai.Text] = Val{K: KBool, T: "false", Typ: types.Typ[types.Bool]}
 					}
 					vc.assume("contract note: at " + ai.Anchor + " bind " + ai.Text + " names no call in " + tr.name + "; treated as never executed")
+					continue
+				}
+				if ai.What == "assert" {
+					// the call the assertion is attached to does not occur in
+					// the body any more: the assertion cannot hold "before that
+					// call" - reported under the assertion's own name
+					vc.oblig(fmt.Sprintf("%s#assert:%s", tr.name, ai.Label), "assert", "false",
+						"the call this assertion is attached to ("+ai.Anchor+") does not occur in the function: "+ai.Text)
 					continue
 				}
 				panic(vcErrorf("at-clause anchor %q does not match any program point", ai.Anchor))
